@@ -149,6 +149,9 @@ class PPWorld:
     def on_object_written(self, key, rec):
         pass
 
+    def on_bytes_moved(self, kind, ident, n):
+        pass
+
     def on_notify_done(self, monitor, tid):
         st = monitor._transfer_states[tid]
         t = self.transfers[tid] if tid < len(self.transfers) else None
